@@ -23,6 +23,7 @@ def export_instance(prog, run_index=0, cancel=False, collab=None):
     plan = {}
     recreq = {}
     recfalsy = {}
+    recnone = {}
     plan_it = {}
     for n in g.nodes:
         d = g.nodes[n]
@@ -40,6 +41,7 @@ def export_instance(prog, run_index=0, cancel=False, collab=None):
         plan[s] = [programs.parse_outcome(o) for o in (run['plan'].get(s) or ['ok'])]
         recreq[s] = int(run['recreq'].get(s, -1))
         recfalsy[s] = s in run.get('recfalsy', ())
+        recnone[s] = [int(x) for x in run.get('recnone', {}).get(s, [])]
         plan_it[s] = [[programs.parse_outcome(o) for o in ep] for ep in (run.get('plan_it', {}).get(s) or [])]
     succ = {short(n): [short(v) for v in g.successors(n)] for n in g.nodes}
     edge = {}
@@ -53,7 +55,7 @@ def export_instance(prog, run_index=0, cancel=False, collab=None):
                                         'cs': str(cs) if cs is not None else '-'}
     desc = {short(n): [short(x) for x in list(nx.descendants_at_distance(g, n, 1))] for n in g.nodes}
     return {'name': prog['name'], 'nodes': nodes, 'attr': attr, 'succ': succ, 'edge': edge, 'desc': desc, 'plan': plan,
-            'recreq': recreq, 'recfalsy': recfalsy, 'plan_it': plan_it, 'input': short(dag.input_node), 'output': short(dag.output_node),
+            'recreq': recreq, 'recfalsy': recfalsy, 'recnone': recnone, 'plan_it': plan_it, 'input': short(dag.input_node), 'output': short(dag.output_node),
             'prog': programs.to_tla(prog), 'cancel': bool(cancel),
             'collab': {'ev': (collab or {}).get('ev', 'sync'), 'save': (collab or {}).get('save', 'sync')}}
 
